@@ -129,14 +129,26 @@ fn load_graph(
     // Map of model node index to graph node ID
     let mut node_id_from_index: HashMap<usize, NodeId> = HashMap::with_capacity(node_count);
 
+    // Convert a serialized node ID. `NodeId::from_u32` panics if the ID is
+    // out of range.
+    let node_id_from_u32 = |id: u32| -> Result<NodeId, LoadError> {
+        if id <= i32::MAX as u32 {
+            Ok(NodeId::from_u32(id))
+        } else {
+            Err(load_error!(GraphError, None, "invalid node ID {}", id))
+        }
+    };
+
     let input_ids: Vec<NodeId> = serialized_graph
         .inputs()
-        .map(|ids| ids.iter().map(NodeId::from_u32).collect())
+        .map(|ids| ids.iter().map(node_id_from_u32).collect())
+        .transpose()?
         .unwrap_or_default();
 
     let output_ids: Vec<NodeId> = serialized_graph
         .outputs()
-        .map(|ids| ids.iter().map(NodeId::from_u32).collect())
+        .map(|ids| ids.iter().map(node_id_from_u32).collect())
+        .transpose()?
         .unwrap_or_default();
 
     let mut graph = Graph::with_capacity(node_count);
@@ -144,7 +156,10 @@ fn load_graph(
     graph.set_output_ids(&output_ids);
 
     if let Some(captures) = serialized_graph.captures() {
-        let captures: Vec<NodeId> = captures.iter().map(NodeId::from_u32).collect();
+        let captures: Vec<NodeId> = captures
+            .iter()
+            .map(node_id_from_u32)
+            .collect::<Result<_, _>>()?;
         graph.set_captures(&captures);
     }
 
